@@ -79,6 +79,226 @@ let frag_rt ovf args =
       | Panic _ -> raise Model_panic)
   | _ -> "BAD-ARGS"
 
+(* ---- codecs --------------------------------------------------------------------------- *)
+
+let chunks_of s = if s = "-" || s = "" then [] else List.map unhex (split_on ',' s)
+let hexe b = if b = [] then "" else hex b
+
+let show_target = function
+  | TDomain (h, p) -> Printf.sprintf "D%s:%d" (hexe h) (int_of_n p)
+  | TV4 (ip, p) -> Printf.sprintf "4%08x:%d" (int_of_n ip) (int_of_n p)
+  | TV6 (ip, p) -> Printf.sprintf "6%s:%d" (hex ip) (int_of_n p)
+  | TUnknown -> "U"
+
+let parse_target s =
+  if s = "U" then TUnknown
+  else
+    let kind = s.[0] in
+    let rest = String.sub s 1 (String.length s - 1) in
+    let i = String.rindex rest ':' in
+    let h = String.sub rest 0 i and p = String.sub rest (i + 1) (String.length rest - i - 1) in
+    let port = n_of_int (int_of_string p) in
+    match kind with
+    | 'D' -> TDomain (unhex h, port)
+    | '4' -> TV4 (n_of_int (int_of_string ("0x" ^ h)), port)
+    | _ -> TV6 (unhex h, port)
+
+let show_auth = function
+  | None -> "none"
+  | Some (u, p) -> Printf.sprintf "%s/%s" (hex u) (hex p)
+let parse_auth s =
+  if s = "none" then None
+  else
+    let i = String.index s '/' in
+    Some (unhex (String.sub s 0 i), unhex (String.sub s (i + 1) (String.length s - i - 1)))
+
+let flat_sst (rbuf, cs) = rbuf @ List.concat cs
+
+let socks_req_read args =
+  match args with
+  | [ req; cs ] -> (
+      let (r, st), w = x_socks_req_read (req = "1") (chunks_of cs) in
+      match r with
+      | ROk q ->
+          Printf.sprintf "OK v=%d c=%d t=%s a=%s W=%s L=%s" (int_of_n q.sr_ver) (int_of_n q.sr_cmd)
+            (show_target q.sr_target) (show_auth q.sr_auth) (hex w) (hex (flat_sst st))
+      | RPanic _ -> raise Model_panic
+      | _ -> Printf.sprintf "ERR W=%s" (hex w))
+  | _ -> "BAD-ARGS"
+
+let socks_req_write args =
+  match args with
+  | [ ver; cmd; t; auth; cs ] -> (
+      let cmd = n_of_int (int_of_string cmd) and t = parse_target t and auth = parse_auth auth in
+      match int_of_string ver with
+      | 4 -> (
+          match write_req_v4 cmd t auth with
+          | Ok b -> "OK W=" ^ hex b
+          | Err _ -> "ERR W=-"
+          | Panic _ -> raise Model_panic)
+      | 5 -> (
+          let (r, _), w = x_socks_req_write5 cmd t auth (chunks_of cs) in
+          match r with
+          | ROk _ -> "OK W=" ^ hex w
+          | RPanic _ -> raise Model_panic
+          | _ -> "ERR W=" ^ hex w)
+      | _ -> "ERR W=-")
+  | _ -> "BAD-ARGS"
+
+let socks_resp_read args =
+  match args with
+  | [ cs ] -> (
+      let (r, st), _ = x_socks_resp_read (chunks_of cs) in
+      match r with
+      | ROk p ->
+          Printf.sprintf "OK v=%d c=%d t=%s L=%s" (int_of_n p.sp_ver) (int_of_n p.sp_cmd)
+            (show_target p.sp_target) (hex (flat_sst st))
+      | RPanic _ -> raise Model_panic
+      | _ -> "ERR")
+  | _ -> "BAD-ARGS"
+
+let socks_resp_write args =
+  match args with
+  | [ ver; cmd; t ] -> (
+      match
+        write_response
+          { sp_ver = n_of_int (int_of_string ver); sp_cmd = n_of_int (int_of_string cmd); sp_target = parse_target t }
+      with
+      | Ok b -> "OK W=" ^ hex b
+      | Err _ -> "ERR W=-"
+      | Panic _ -> raise Model_panic)
+  | _ -> "BAD-ARGS"
+
+let show_headers hs =
+  if hs = [] then "-" else String.concat ";" (List.map (fun (k, v) -> hex k ^ "=" ^ hex v) hs)
+let parse_headers s =
+  if s = "-" then []
+  else
+    List.map
+      (fun kv ->
+        let i = String.index kv '=' in
+        (unhex (String.sub kv 0 i), unhex (String.sub kv (i + 1) (String.length kv - i - 1))))
+      (split_on ';' s)
+
+let http_req_read args =
+  match args with
+  | [ cs ] -> (
+      let (r, st), _ = x_http_req_read (chunks_of cs) in
+      match r with
+      | ROk q ->
+          Printf.sprintf "OK m=%s r=%s v=%s h=%s L=%s" (hex q.hq_method) (hex q.hq_resource) (hex q.hq_version)
+            (show_headers q.hq_headers) (hex (flat_sst st))
+      | RPanic _ -> raise Model_panic
+      | _ -> "ERR")
+  | _ -> "BAD-ARGS"
+
+let http_resp_read args =
+  match args with
+  | [ cs ] -> (
+      let (r, st), _ = x_http_resp_read (chunks_of cs) in
+      match r with
+      | ROk p ->
+          Printf.sprintf "OK v=%s c=%d s=%s h=%s L=%s" (hex p.hp_version) (int_of_n p.hp_code) (hex p.hp_status)
+            (show_headers p.hp_headers) (hex (flat_sst st))
+      | RPanic _ -> raise Model_panic
+      | _ -> "ERR")
+  | _ -> "BAD-ARGS"
+
+let http_req_write args =
+  match args with
+  | [ m; r; v; hs ] ->
+      "OK W="
+      ^ hex (write_http_request { hq_method = unhex m; hq_resource = unhex r; hq_version = unhex v; hq_headers = parse_headers hs })
+  | _ -> "BAD-ARGS"
+
+let http_resp_write args =
+  match args with
+  | v :: c :: st :: hs :: rest ->
+      let head =
+        write_http_response
+          { hp_version = unhex v; hp_code = n_of_int (int_of_string c); hp_status = unhex st; hp_headers = parse_headers hs }
+      in
+      let body = match rest with [ b ] -> unhex b | _ -> [] in
+      "OK W=" ^ hex (head @ body)
+  | _ -> "BAD-ARGS"
+
+let show_frame f =
+  Printf.sprintf "F/%d/%s/%s" (int_of_n f.f_sid)
+    (match f.f_addr with None -> "none" | Some t -> show_target t)
+    (hex f.f_body)
+
+let parse_frame sid addr body =
+  { f_sid = n_of_int (int_of_string sid); f_addr = (if addr = "none" then None else Some (parse_target addr)); f_body = unhex body }
+
+let frame_decode args =
+  match args with
+  | [ b ] -> ( match from_buffer (unhex b) with Ok f -> "OK " ^ show_frame f | Err _ -> "ERR" | Panic _ -> raise Model_panic)
+  | _ -> "BAD-ARGS"
+
+let frame_encode args =
+  match args with
+  | [ sid; addr; body ] -> (
+      match encode_frame (parse_frame sid addr body) with
+      | Ok b -> "OK W=" ^ hex b
+      | Err _ -> "ERR W=-"
+      | Panic _ -> raise Model_panic)
+  | _ -> "BAD-ARGS"
+
+let frame_stream args =
+  match args with
+  | [ cs ] ->
+      let frs, e = x_sfr_all (chunks_of cs) in
+      let tail = match e with Ok _ -> "END" | Err _ -> "ERR" | Panic _ -> raise Model_panic in
+      String.concat "," (List.map show_frame frs @ [ tail ])
+  | _ -> "BAD-ARGS"
+
+let udp_decode args =
+  match args with
+  | [ b ] -> (
+      match decode_udp (unhex b) with
+      | Ok (t, body) -> "OK " ^ show_frame { f_sid = N0; f_addr = Some t; f_body = body }
+      | Err _ -> "ERR"
+      | Panic _ -> raise Model_panic)
+  | _ -> "BAD-ARGS"
+
+let udp_encode args =
+  match args with
+  | [ addr; body ] -> (
+      let t = if addr = "none" then None else Some (parse_target addr) in
+      match encode_udp t (unhex body) with Ok b -> "OK W=" ^ hex b | Err _ -> "ERR" | Panic _ -> raise Model_panic)
+  | _ -> "BAD-ARGS"
+
+let target_parse args =
+  match args with
+  | [ h ] -> (
+      let s = unhex h in
+      if (match s with c :: _ -> int_of_n c = 91 | [] -> false) then "OPAQUE"
+      else if not (utf8_valid s) then "OPAQUE"
+      else match x_parse_target s with Some t -> "OK " ^ show_target t | None -> "ERR")
+  | _ -> "BAD-ARGS"
+
+let target_print args =
+  match args with
+  | [ t ] -> ( match parse_target t with TV6 _ -> "OPAQUE" | t -> hex (x_print_target t))
+  | _ -> "BAD-ARGS"
+
+let connect_write args =
+  match args with
+  | [ t; cs ] -> (
+      match parse_target t with
+      | TV6 _ -> "OPAQUE"
+      | t -> (
+          match x_write_connect t with
+          | Err _ -> "ERR W=-"
+          | Panic _ -> raise Model_panic
+          | Ok w -> (
+              let (r, _), _ = x_http_resp_read (chunks_of cs) in
+              match r with
+              | ROk p when int_of_n p.hp_code = 200 -> "OK W=" ^ hex w
+              | RPanic _ -> raise Model_panic
+              | _ -> "ERR W=" ^ hex w)))
+  | _ -> "BAD-ARGS"
+
 (* ---- main ----------------------------------------------------------------------------- *)
 
 let run_line ovf line =
@@ -90,10 +310,26 @@ let run_line ovf line =
         | "frag_seq" -> frag_seq ovf args
         | "frag_make" -> frag_make ovf args
         | "frag_rt" -> frag_rt ovf args
+        | "socks_req_read" -> socks_req_read args
+        | "socks_req_write" -> socks_req_write args
+        | "socks_resp_read" -> socks_resp_read args
+        | "socks_resp_write" -> socks_resp_write args
+        | "http_req_read" -> http_req_read args
+        | "http_resp_read" -> http_resp_read args
+        | "http_req_write" -> http_req_write args
+        | "http_resp_write" -> http_resp_write args
+        | "frame_decode" -> frame_decode args
+        | "frame_encode" -> frame_encode args
+        | "frame_stream" -> frame_stream args
+        | "udp_decode" -> udp_decode args
+        | "udp_encode" -> udp_encode args
+        | "target_parse" -> target_parse args
+        | "target_print" -> target_print args
+        | "connect_write" -> connect_write args
         | _ -> "UNKNOWN-OP " ^ op
       with
       | Model_panic -> "PANIC"
-      | Invalid_argument _ | Failure _ -> "BAD-ARGS")
+      | Invalid_argument _ | Failure _ | Not_found -> "BAD-ARGS")
 
 let () =
   let ovf = Array.length Sys.argv > 1 && Sys.argv.(1) = "debug" in
